@@ -343,6 +343,7 @@ static void check_problem(Prob& p, const std::vector<std::vector<double>>& bs, c
 // ---- badly scaled ("stiff") regular problems: weights spread over 9 decades, rank still unambiguous.
 // Oracle: agreement with the harness's long double reference (Q_ref = N^-1, x_ref = Q_ref A'P b),
 // tolerances scaled by the cofactors (expected accuracy of double: cond(N)*eps ~ 2e-7).
+static long double g_meas[4][4];   // [alg][x, Q, H, idempotency]: max error / (sqrt(kappa) eps)   (measurement aid, ADJMC_MEASURE=1)
 static void check_stiff(Prob& p, const std::vector<std::vector<double>>& bs) {
   derive(p);
   if (p.nullity) return;
@@ -373,12 +374,21 @@ static void check_stiff(Prob& p, const std::vector<std::vector<double>>& bs) {
       Res R = run(p, b, nullptr, a, bi == 0);
       C("transitions"); C("evaluations");
       R4[a] = R;
+      // gso and svd work on the design matrix itself and lose only cond(A)*eps = sqrt(kappa)*eps.  Measured on the
+      // whole thorough family (ADJMC_MEASURE=1): x <= 320, Q <= 26, idempotency of the projector <= 0.2 times
+      // sqrt(kappa)*eps; the bounds below keep a factor >= 10 (classical Gram-Schmidt, kappa*eps, is far outside)
+      const bool orth = (a == 1 || a == 2);
+      const LD se = sqrtl(kappa) * 2.2e-16L;
+      const LD Tx = orth ? std::max<LD>(1e-9L, 4000 * se) : TQ;
+      const LD Tq = orth ? std::max<LD>(1e-9L, 300 * se) : TQ;
+      const LD Tp = orth ? std::max<LD>(1e-9L, 50 * se) : std::max<LD>(1e-4L, TQ);
       if (!R.ok) { V(std::string("C01|refused-wellposed|") + ALGN[a] + "|stiff", cs, "exception " + R.exc); V(std::string("C02|refused-wellposed|") + ALGN[a] + "|stiff", cs, "exception " + R.exc); continue; }
       O(std::string("solved:") + ALGN[a] + ":stiff");
       if (!finite_all(R.x) || !finite_all(R.r) || !std::isfinite(R.rtr)) { V(std::string("C01|nonfinite|") + ALGN[a] + "|stiff", cs, "non finite x/r/rtr"); continue; }
       if (R.defect != 0) { V(std::string("C01|defect|") + ALGN[a] + "|stiff", cs, "defect " + std::to_string(R.defect) + " for a regular (badly scaled) system"); V(std::string("C20|defect|") + ALGN[a] + "|stiff", cs, "defect reported for a regular system"); }
       LD ex = 0; for (int j = 0; j < n; j++) ex = std::max(ex, fabsl(R.x[j] - xr[j]));
-      if (ex > TQ * xs) V(std::string("C01|x!=reference|") + ALGN[a] + "|stiff", cs, "max |x - x_ref| = " + str((double)ex) + " scale " + str((double)xs));
+      g_meas[a][0] = std::max<long double>(g_meas[a][0], ex / xs / (sqrtl(kappa) * 2.2e-16L));
+      if (ex > Tx * xs) V(std::string("C01|x!=reference|") + ALGN[a] + "|stiff", cs, "max |x - x_ref| = " + str((double)ex) + " scale " + str((double)xs));
       LD e1 = 0; std::vector<LD> v(m);
       for (int i = 0; i < m; i++) { LD s = -b[i]; for (int j = 0; j < n; j++) s += p.A(i, j) * R.x[j]; e1 = std::max(e1, fabsl(s - R.r[i])); v[i] = R.r[i]; }
       if (e1 > 1e-8L * xs) V(std::string("C01|r!=Ax-b|") + ALGN[a] + "|stiff", cs, "max |r-(Ax-b)| = " + str((double)e1));
@@ -392,16 +402,19 @@ static void check_stiff(Prob& p, const std::vector<std::vector<double>>& bs) {
           if (d > eq) { eq = d; wi = i; wj = j; }
           es = std::max(es, fabsl((LD)R.Q[i * n + j] - R.Q[j * n + i]) / (sq[i] * sq[j]));
         }
-        if (eq > TQ) V(std::string("C03|Q!=N^-1|") + ALGN[a] + "|stiff", cs, "q_xx(" + std::to_string(wi + 1) + "," + std::to_string(wj + 1) + ") = " + str(R.Q[wi * n + wj]) + " reference " + str((double)Qr(wi, wj)));
+        g_meas[a][1] = std::max<long double>(g_meas[a][1], eq / (sqrtl(kappa) * 2.2e-16L));
+        if (eq > Tq) V(std::string("C03|Q!=N^-1|") + ALGN[a] + "|stiff", cs, "q_xx(" + std::to_string(wi + 1) + "," + std::to_string(wj + 1) + ") = " + str(R.Q[wi * n + wj]) + " reference " + str((double)Qr(wi, wj)));
         if (es > 1e-9L) V(std::string("C03|Q-asymmetric|") + ALGN[a] + "|stiff", cs, "scaled asymmetry " + str((double)es));
         LD eh = 0; for (int i = 0; i < m; i++) for (int j = 0; j < m; j++) { LD sc = sqrtl(fabsl(Hr(i, i) * Hr(j, j))) + 1e-30L; eh = std::max(eh, fabsl(R.H[i * m + j] - Hr(i, j)) / sc); }
+        g_meas[a][2] = std::max<long double>(g_meas[a][2], eh / (sqrtl(kappa) * 2.2e-16L));
         if (eh > TQ) V(std::string("C03|qbb!=AQA'|") + ALGN[a] + "|stiff", cs, "scaled max = " + str((double)eh));
         LMat Hs(m, m); for (int i = 0; i < m; i++) for (int j = 0; j < m; j++) Hs(i, j) = R.Hs[i * m + j];
         LMat HH = mul(Hs, Hs); LD e = 0, trc = 0, dmin = 1, dmax = 0;
         for (int i = 0; i < m; i++) { for (int j = 0; j < m; j++) { e = std::max(e, fabsl(HH(i, j) - Hs(i, j))); e = std::max(e, fabsl(Hs(i, j) - Hs(j, i))); } trc += 1 - Hs(i, i); dmin = std::min(dmin, Hs(i, i)); dmax = std::max(dmax, Hs(i, i)); }
-        if (e > std::max<LD>(1e-4L, TQ)) V(std::string("C03|projector-not-idempotent|") + ALGN[a] + "|stiff", cs, "max = " + str((double)e));
-        if (dmin < -std::max<LD>(1e-4L, TQ) || dmax > 1 + std::max<LD>(1e-4L, TQ)) V(std::string("C03|projector-diagonal-range|") + ALGN[a] + "|stiff", cs, "diag in [" + str((double)dmin) + "," + str((double)dmax) + "]");
-        if (fabsl(trc - (m - n)) > std::max<LD>(1e-4L, TQ) * m) V(std::string("C03|redundancy-sum|") + ALGN[a] + "|stiff", cs, "sum(1-h_ii) = " + str((double)trc) + " dof " + std::to_string(m - n));
+        g_meas[a][3] = std::max<long double>(g_meas[a][3], e / (sqrtl(kappa) * 2.2e-16L));
+        if (e > Tp) V(std::string("C03|projector-not-idempotent|") + ALGN[a] + "|stiff", cs, "max = " + str((double)e));
+        if (dmin < -Tp || dmax > 1 + Tp) V(std::string("C03|projector-diagonal-range|") + ALGN[a] + "|stiff", cs, "diag in [" + str((double)dmin) + "," + str((double)dmax) + "]");
+        if (fabsl(trc - (m - n)) > Tp * m) V(std::string("C03|redundancy-sum|") + ALGN[a] + "|stiff", cs, "sum(1-h_ii) = " + str((double)trc) + " dof " + std::to_string(m - n));
       }
     }
     for (int a = 0; a < 4; a++) for (int c = a + 1; c < 4; c++) {
@@ -541,5 +554,6 @@ int main(int argc, char** argv) {
       }
     }
   }
+  if (getenv("ADJMC_MEASURE")) for (int a = 0; a < 4; a++) fprintf(stderr, "MEASURE %s x %.3Lg Q %.3Lg H %.3Lg idem %.3Lg  (max error / (sqrt(kappa) eps))\n", ALGN[a], g_meas[a][0], g_meas[a][1], g_meas[a][2], g_meas[a][3]);
   return finish();
 }
